@@ -135,7 +135,8 @@ Fixpoint srv_seconds (fuel : nat) (ct : N) (c : tcfg) (v5 : bool) (n : N) (m : m
   end.
 
 (* client kinds 13 / 15: CONNECT is written at once; after CONNACK the keep-alive loop is Timer.k_step,
-   one KTick at the start of every later second; the broker closing is KClose *)
+   one KTick at the start of every later second; the broker closing is KClose; op 31 = the application sends
+   one QoS 1 PUBLISH (first byte 50), op 32 = the broker's PUBACK (no effect on the loop) *)
 Record mcli := mkMcli { c_k : option kstate; c_closed : bool; c_pkts : list N }.
 
 Fixpoint cli_ops (ka n : N) (m : mcli) (ops : list (list N)) : mcli :=
@@ -144,7 +145,7 @@ Fixpoint cli_ops (ka n : N) (m : mcli) (ops : list (list N)) : mcli :=
   | [s; op] :: r =>
     if s =? n then
       let m1 := if c_closed m then m
-                else if op =? 30 then
+                else if (op =? 30) || (op =? 33) then     (* 33: CONNACK announcing Receive Maximum 1 *)
                   match c_k m with None => mkMcli (Some (k_init ka)) false (c_pkts m) | Some _ => m end
                 else if op =? 3 then
                   mkMcli (match c_k m with Some k => Some (fst (k_step ka k KClose)) | None => None end) true (c_pkts m)
@@ -154,10 +155,24 @@ Fixpoint cli_ops (ka n : N) (m : mcli) (ops : list (list N)) : mcli :=
   | _ :: r => cli_ops ka n m r
   end.
 
+(* op 31 of second n: the application publishes one QoS 1 message, written at once (the window is >= 1).  The
+   operations of a second are applied on the second, the keep-alive loop wakes a moment later: the PUBLISH
+   precedes a PINGREQ of the same second.  The loop looks neither at the traffic nor at the send credit. *)
+Fixpoint cli_pubs (n : N) (m : mcli) (ops : list (list N)) : mcli :=
+  match ops with
+  | [] => m
+  | [s; op] :: r =>
+    cli_pubs n (if (s =? n) && (op =? 31) && negb (c_closed m)
+                then match c_k m with Some _ => mkMcli (c_k m) false (c_pkts m ++ [50]) | None => m end
+                else m) r
+  | _ :: r => cli_pubs n m r
+  end.
+
 Fixpoint cli_seconds (fuel : nat) (ka n : N) (m : mcli) (ops : list (list N)) : list (list N) :=
   match fuel with
   | O => []
   | S k =>
+    let m := cli_pubs n m ops in
     let m0 := match c_k m with
               | Some ks => let '(ks1, ping) := k_step ka ks KTick in
                            mkMcli (Some ks1) (c_closed m) (c_pkts m ++ (if ping then [192] else []))
